@@ -10,7 +10,10 @@ import ast
 from ..core import Rule
 from ..model import AnalysisError, dotted, unparse, short, ancestors
 from ..cfg import cfg_of, calls_in_order
-from .c08 import raising_ifs
+from .. import straight as S
+from ..facts import facts_of
+from ..contract import entry, refusals, unpermitted, isinstance_of, describe_alt
+from ..pathsum import summarize
 
 EXPLANATION = ("For PickledDict and DBMDict each content-reading or content-changing public method must *use* the guarded "
                "attribute (call / subscript / iterate / len / in) so that the closed marker can raise - a method that only rebinds "
@@ -94,28 +97,53 @@ def check(repo):
         # ------------------------------------------------------------ R20.2
         st = ci.methods.get("__setitem__")
         if st is not None:
-            g = [s for s, exc in raising_ifs(st) if exc == "TypeError" and "isinstance(%s, typing.ByteString)" % st.params[2] in unparse(s.test) and unparse(s.test).startswith("not ")]
-            if r2.require(bool(g), st, "%s refuses non-bytes" % cname, "%s.__setitem__ no longer refuses a non-bytes value with TypeError" % cname):
-                cfg = cfg_of(st.node)
-                stores = [n.id for n in cfg.nodes if n.kind == "stmt" and isinstance(n.stmt, ast.Assign) and any(isinstance(t, ast.Subscript) for t in n.stmt.targets)]
-                r2.require(bool(stores) and all(cfg.dominates(cfg.nodes_of(g[0])[0], s) for s in stores), st, "%s type check precedes the store" % cname, "%s.__setitem__ stores before checking the type" % cname)
-                r2.require(all(unparse(cfg.nodes[s].stmt) == "self.%s[%s] = %s" % (attr, st.params[1], st.params[2]) for s in stores), st, "%s stores key -> value" % cname,
-                           "%s.__setitem__ stores %s" % (cname, [unparse(cfg.nodes[s].stmt) for s in stores]))
+            Fs = facts_of(st)
+            kp, vp = st.params[1], st.params[2]
+            stores = [n.id for n in Fs.cfg.nodes if n.id in Fs.ins and n.kind == "stmt" and isinstance(n.stmt, ast.Assign) and any(
+                isinstance(t, ast.Subscript) and unparse(t.value) == "self." + attr for t in n.stmt.targets)]
+            if r2.require(bool(refusals(Fs, isinstance_of(entry(vp), False), ("TypeError",))), st, "%s refuses non-bytes" % cname,
+                          "%s.__setitem__ no longer refuses a non-bytes value with TypeError" % cname):
+                r2.require(bool(stores) and not unpermitted(Fs, stores, [isinstance_of(entry(vp), True)]), st, "%s type check precedes the store" % cname,
+                           "%s.__setitem__ stores before checking the type" % cname)
+                good = True
+                shown = []
+                for ps in summarize(st):
+                    if ps.exc is not None:
+                        continue
+                    evs = [e for e in ps.events if e[0] == "store" and isinstance(e[1], tuple) and e[1][1] == "self." + attr]
+                    shown += [(S.show(e[1][2]), S.show(e[2])[:60]) for e in evs]
+                    if not evs or not all(e[1][2] == ("var", kp) and e[2] in (("var", vp), ("call", ("fn", "bytes"), (("var", vp),), ())) for e in evs):
+                        good = False
+                r2.require(good, st, "%s stores key -> value" % cname, "%s.__setitem__ stores %s" % (cname, shown))
         # ------------------------------------------------------------ R20.3
         fd = ci.methods.get("from_dict")
         if fd is not None:
-            src = unparse(fd.node)
             src_param = fd.params[1]
-            if cname == "PickledDict":
-                asg = [s for s in ast.walk(fd.node) if isinstance(s, ast.Assign) and unparse(s.targets[0]).endswith("__data")]
-                ok = bool(asg) and all(_fresh_copy(a.value, src_param) for a in asg)
-                r3.require(ok, fd, "PickledDict.from_dict copies", "PickledDict.from_dict binds %s: later changes of the caller's dict show through (or the dict is shared)" % ([unparse(a.value) for a in asg]))
-            else:
-                r3.require(".update(%s)" % src_param in src, fd, "DBMDict.from_dict copies entries", "DBMDict.from_dict no longer copies the entries into the shelf")
             cfg = cfg_of(fd.node)
-            r3.require(".sync()" in src and src.index(".sync()") > (src.index("__data =") if "__data =" in src else src.index(".update(")), fd, "%s.from_dict syncs after filling" % cname,
+            fills, syncs, creates = set(), set(), False
+            for n in cfg.nodes:
+                if n.stmt is None or n.ast is None:
+                    continue
+                root = n.ast if n.kind == "test" else n.stmt
+                if cname == "PickledDict" and n.kind == "stmt" and isinstance(n.stmt, ast.Assign) and any(isinstance(t, ast.Attribute) and t.attr == attr for t in n.stmt.targets):
+                    fills.add(n.id)
+                    r3.require(_fresh_copy(n.stmt.value, src_param), fd, "PickledDict.from_dict copies",
+                               "PickledDict.from_dict binds %s: later changes of the caller's dict show through (or the dict is shared)" % unparse(n.stmt.value), n.stmt)
+                for c in ast.walk(root):
+                    if isinstance(c, ast.Call) and isinstance(c.func, ast.Attribute) and c.func.attr == "update" and c.args and unparse(c.args[0]).startswith(src_param) and cname != "PickledDict":
+                        fills.add(n.id)
+                    if isinstance(c, ast.Call) and isinstance(c.func, ast.Attribute) and c.func.attr == "sync":
+                        syncs.add(n.id)
+                    if isinstance(c, ast.Call) and dotted(c.func) in ("cls", cname) and ((len(c.args) > 1 and isinstance(c.args[1], ast.Constant) and c.args[1].value == "c") or any(
+                            k.arg == "mode" and isinstance(k.value, ast.Constant) and k.value.value == "c" for k in c.keywords)):
+                        creates = True
+                    if isinstance(c, ast.Call) and dotted(c.func) in ("cls.create", cname + ".create"):
+                        creates = True
+            if cname != "PickledDict":
+                r3.require(bool(fills), fd, "DBMDict.from_dict copies entries", "DBMDict.from_dict no longer copies the entries into the shelf")
+            r3.require(bool(fills) and bool(syncs) and all(not cfg.can_reach(f_, cfg.exit, avoid=syncs) for f_ in fills), fd, "%s.from_dict syncs after filling" % cname,
                        "%s.from_dict does not sync after filling" % cname)
-            r3.require("mode='c'" in src, fd, "%s.from_dict creates" % cname, "%s.from_dict no longer creates a new file" % cname)
+            r3.require(creates, fd, "%s.from_dict creates" % cname, "%s.from_dict no longer creates a new file" % cname)
     # no lazy / copy-on-write aliasing state
     pdc = repo.cls(PD, "PickledDict")
     for f in pdc.methods.values():
@@ -126,41 +154,114 @@ def check(repo):
 
     # ---------------------------------------------------------------- R20.4 PickledDict life cycle
     sy = pdc.methods.get("sync")
-    core_body = [s for s in sy.node.body if not (isinstance(s, ast.If) and all(isinstance(x, ast.Return) for x in s.body) and not s.orelse)]
-    steps = [unparse(s) for s in core_body if not (isinstance(s, ast.Assign) and isinstance(s.value, ast.Constant) and isinstance(s.value.value, bool))]
-    want = ["self.__file.truncate(0)", "self.__file.seek(0)", "pickle.dump(self.__data, self.__file)", "self.__file.flush()"]
-    r4.require(steps == want, sy, "sync = truncate, rewind, dump the data attribute, flush",
-               "PickledDict.sync does %s; every call must rewrite the file from the data attribute (a dirty-flag shortcut must be set by every mutator, including clear)" % steps)
+    FL = "self.__file"
+    DATA = ("attr", ("var", "self"), "__data")
+    FILE = ("attr", ("var", "self"), "__file")
+
+    def is_call(t, name, args=None):
+        return t[0] == "call" and t[1] == ("fn", name) and (args is None or t[2] == args)
+    ok_sync, seen_full = True, False
+    shown = None
+    for ps in summarize(sy):
+        if ps.exc is not None:
+            continue
+        calls = [e[1] for e in ps.events if e[0] == "call"]
+        flagged = any(k[0] == "truth" and k[1].startswith("self.") and not k[1].startswith(FL) for (k, t) in ps.facts)
+        if not calls and flagged:
+            continue   # a dirty-flag early exit (the mutators are checked below)
+        shown = [S.show(c)[:50] for c in calls]
+        names = [c[1][1] if c[0] == "call" and c[1][0] == "fn" else "?" for c in calls]
+        try:
+            i_dump = next(i for i, c in enumerate(calls) if is_call(c, "pickle.dump") and c[2] == (DATA, FILE))
+        except StopIteration:
+            ok_sync = False
+            continue
+        before, after = calls[:i_dump], calls[i_dump + 1:]
+        rewound = any(is_call(c, FL + ".seek", (("const", 0),)) or is_call(c, FL + ".seek", (("const", 0), ("const", 0))) for c in before)
+        emptied = any(is_call(c, FL + ".truncate", (("const", 0),)) for c in before) or (
+            any(is_call(c, FL + ".truncate", ()) for c in before) and rewound and names.index(FL + ".seek") < names.index(FL + ".truncate"))
+        flushed = any(is_call(c, FL + ".flush") for c in after)
+        if rewound and emptied and flushed:
+            seen_full = True
+        else:
+            ok_sync = False
+    r4.require(ok_sync and seen_full, sy, "sync = truncate, rewind, dump the data attribute, flush",
+               "PickledDict.sync does %s; every call must rewrite the file from the data attribute (a dirty-flag shortcut must be set by every mutator, including clear)" % shown)
     cl = pdc.methods.get("close")
-    tr = next((s for s in cl.node.body if isinstance(s, ast.Try)), None)
-    ok = tr is not None and tr.finalbody and "self.__data = _ClosedDict()" in unparse(ast.Module(body=tr.finalbody, type_ignores=[]))
-    r4.require(ok, cl, "close installs the marker in a finally", "PickledDict.close does not install the closed marker on every path")
-    if tr is not None:
-        body = unparse(ast.Module(body=tr.body, type_ignores=[]))
-        r4.require("self.sync()" in body and "self.__file.close()" in body and body.index("self.sync()") < body.index("self.__file.close()"), cl, "close syncs before closing the file",
-                   "PickledDict.close no longer syncs before closing the file")
-        r4.require("if not self.__file.closed" in body, cl, "close is idempotent", "PickledDict.close no longer tolerates an already closed file")
+    ccfg = cfg_of(cl.node)
+    marks = {n.id for n in ccfg.nodes if n.kind == "stmt" and isinstance(n.stmt, ast.Assign) and any(unparse(t) == "self.__data" for t in n.stmt.targets) and (
+        (isinstance(n.stmt.value, ast.Call) and dotted(n.stmt.value.func) == "_ClosedDict") or (isinstance(n.stmt.value, ast.Constant) and n.stmt.value.value is None))}
+    r4.require(bool(marks) and not ccfg.can_reach(ccfg.entry, ccfg.exit, avoid=marks) and not ccfg.can_reach(ccfg.entry, ccfg.raise_exit, avoid=marks), cl,
+               "close installs the marker on every path", "PickledDict.close does not install the closed marker on every path")
+    ok_order, seen_sync, idem = True, False, True
+    for ps in summarize(cl):
+        calls = [e[1] for e in ps.events if e[0] == "call"]
+        names = [c[1][1] if c[0] == "call" and c[1][0] == "fn" else "?" for c in calls]
+        if FL + ".close" in names:
+            if "self.sync" not in names or names.index("self.sync") > names.index(FL + ".close"):
+                ok_order = False
+            else:
+                seen_sync = True
+        if "self.sync" in names and not any(k == ("truth", FL + ".closed") and not t for (k, t) in ps.facts):
+            idem = False
+    r4.require(ok_order and seen_sync, cl, "close syncs before closing the file", "PickledDict.close no longer syncs before closing the file")
+    r4.require(idem, cl, "close is idempotent", "PickledDict.close no longer tolerates an already closed file")
     init = pdc.methods.get("__init__")
-    src = unparse(init.node)
-    r4.require("self.__data = pickle.load(self.__file)" in src and "open(file_path, 'rb+')" in src, init, "open loads with the inverse of sync", "PickledDict open mode no longer loads the pickled dict")
-    r4.require("isinstance(self.__data, typing.Dict)" in src, init, "open type-checks", "PickledDict open mode no longer checks that the file holds a dict")
+    fp, mp = init.params[1], init.params[2]
+    loaded = typed = False
+    for ps in summarize(init):
+        if ps.exc is not None:
+            continue
+        if ps.has(lambda k, t: k[0] == "==" and "'r'" in k[1:] and entry(mp) in k[1:] and t):
+            fl = ps.store("__file")
+            if fl is not None and fl[0] == "call" and fl[1] == ("fn", "open") and fl[2][:1] == (("var", fp),) and ("const", "rb+") in fl[2] + tuple(v for _k, v in fl[3]) and \
+                    ps.store("__data") == ("call", ("fn", "pickle.load"), (fl,), ()):
+                loaded = True
+            if ps.has(lambda k, t: k[0] == "truth" and k[1].startswith("isinstance(self.__data, ") and ("Dict" in k[1] or "dict" in k[1]) and t):
+                typed = True
+    r4.require(loaded, init, "open loads with the inverse of sync", "PickledDict open mode no longer loads the pickled dict")
+    r4.require(typed, init, "open type-checks", "PickledDict open mode no longer checks that the file holds a dict")
     for cname in ("PickledDict", "DBMDict"):
         f = repo.cls(PD, cname).methods.get("__init__")
-        s = unparse(f.node)
-        r4.require("raise FileExistsError" in s and "os.path.exists(file_path)" in s, f, "%s create refuses an existing path" % cname, "%s create mode no longer raises FileExistsError for an existing path" % cname)
-        r4.require("raise FileNotFoundError" in s, f, "%s open refuses a missing path" % cname, "%s open mode no longer raises FileNotFoundError for a missing path" % cname)
-        r4.require("raise TypeError(f'Unexpected Mode: {mode}')" in s, f, "%s refuses unknown modes" % cname, "%s no longer refuses unknown modes" % cname)
+        Ff = facts_of(f)
+        fpath, fmode = f.params[1], f.params[2]
+        exists = lambda truth: (lambda k, t: k == ("truth", "os.path.exists(%s)" % entry(fpath)) and t == truth)  # noqa: E731
+        r4.require(bool(refusals(Ff, exists(True), ("FileExistsError",))), f, "%s create refuses an existing path" % cname, "%s create mode no longer raises FileExistsError for an existing path" % cname)
+        r4.require(any(name and name.split(".")[-1] == "FileNotFoundError" for _n, name, _f in Ff.raises()), f, "%s open refuses a missing path" % cname,
+                   "%s open mode no longer raises FileNotFoundError for a missing path" % cname)
+        unknown = refusals(Ff, lambda k, t: k[0] == "==" and "'r'" in k[1:] and entry(fmode) in k[1:] and not t, ("TypeError",))
+        unknown = [n for n in unknown if any(k[0] == "==" and "'c'" in k[1:] and not t for (k, t) in Ff.at(n.id))]
+        r4.require(bool(unknown), f, "%s refuses unknown modes" % cname, "%s no longer refuses unknown modes" % cname)
         rl = repo.cls(PD, cname).methods.get("release")
-        sr = unparse(rl.node)
-        r4.require("self.close()" in sr and "os.unlink(self.__file_path)" in sr and sr.index("self.close()") < sr.index("os.unlink"), rl, "%s release closes before unlinking" % cname,
-                   "%s.release no longer closes before unlinking" % cname)
-        op = repo.cls(PD, cname).methods.get("open")
-        cr = repo.cls(PD, cname).methods.get("create")
-        r4.require("cls(local_path, 'r')" in unparse(op.node) and "cls(local_path, 'c')" in unparse(cr.node), op, "%s open/create modes" % cname, "%s.open/create no longer map to modes r / c" % cname)
+        okr = False
+        for ps in summarize(rl):
+            names = [e[1][1][1] if e[0] == "call" and e[1][0] == "call" and e[1][1][0] == "fn" else None for e in ps.events]
+            if "os.unlink" in names or "os.remove" in names:
+                u = names.index("os.unlink") if "os.unlink" in names else names.index("os.remove")
+                okr = "self.close" in names and names.index("self.close") < u and ps.events[u][1][2] == (("attr", ("var", "self"), "__file_path"),)
+                if not okr:
+                    break
+        r4.require(okr, rl, "%s release closes before unlinking" % cname, "%s.release no longer closes before unlinking its own file" % cname)
+        for mname, m in (("open", "r"), ("create", "c")):
+            of = repo.cls(PD, cname).methods.get(mname)
+            rets = [ps.ret for ps in summarize(of) if ps.exc is None]
+            good = bool(rets)
+            for rt in rets:
+                a = None
+                if rt is not None and rt[0] == "call" and rt[1] in (("fn", "cls"), ("fn", cname)):
+                    a = dict(zip(("file_path", "mode"), rt[2]))
+                    a.update(dict(rt[3]))
+                if not (a and a.get("file_path") == ("var", of.params[1]) and a.get("mode") == ("const", m)):
+                    good = False
+            r4.require(good, of, "%s %s mode" % (cname, mname), "%s.%s no longer maps to mode %r" % (cname, mname, m))
     dc = repo.cls(PD, "DBMDict").methods.get("close")
-    sdc = unparse(dc.node)
-    r4.require("self.__shelf.close()" in sdc and "self.__shelf = _ClosedDict()" in sdc and "self.__closed = True" in sdc, dc, "DBMDict.close closes the shelf and installs the marker",
-               "DBMDict.close no longer closes the shelf / installs the marker")
+    okdc = False
+    for ps in summarize(dc):
+        names = [e[1][1][1] if e[0] == "call" and e[1][0] == "call" and e[1][1][0] == "fn" else None for e in ps.events]
+        stores = {e[1]: e[2] for e in ps.events if e[0] == "store" and isinstance(e[1], str)}
+        if "self.__shelf.close" in names and stores.get("self.__closed") == ("const", True) and stores.get("self.__shelf") == ("call", ("fn", "_ClosedDict"), (), ()):
+            okdc = True
+    r4.require(okdc, dc, "DBMDict.close closes the shelf and installs the marker", "DBMDict.close no longer closes the shelf / installs the marker")
     # dirty-flag pattern: if sync is conditional, every mutator must set the flag
     for cname, attr in (("PickledDict", "__data"),):
         ci = repo.cls(PD, cname)
@@ -179,35 +280,114 @@ def check(repo):
     # ---------------------------------------------------------------- R20.5 shelf
     sh = repo.cls(BS, "BytesShelf")
     si = sh.methods.get("__setitem__")
-    ssrc = unparse(si.node)
-    r5.require("self.cache[key] = value" in ssrc and "self.dict[key] = f.getvalue()" in ssrc and "p.dump(value)" in ssrc, si, "set updates cache and backend", "BytesShelf.__setitem__ no longer updates both cache and backend")
+    kp, vp = si.params[1], si.params[2]
+    oks, seen_wb = True, False
+    for ps in summarize(si):
+        if ps.exc is not None:
+            continue
+        st_ = [e for e in ps.events if e[0] == "store" and isinstance(e[1], tuple)]
+        backend = [e for e in st_ if e[1][1] == "self.dict" and e[1][2] == ("var", kp)]
+        cache = [e for e in st_ if e[1][1] == "self.cache" and e[1][2] == ("var", kp) and e[2] == ("var", vp)]
+        dumped = any(e[0] == "call" and e[1][0] == "call" and ((e[1][1][0] == "method" and e[1][1][2] in ("dump", "dumps")) or (e[1][1] in (("fn", "pickle.dumps"), ("fn", "dumps")))) and
+                     ("var", vp) in e[1][2] for e in ps.events)
+        if not backend or not dumped:
+            oks = False
+        if ps.has(lambda k, t: k == ("truth", "self.writeback") and t):
+            seen_wb = True
+            if not cache:
+                oks = False
+    r5.require(oks and seen_wb, si, "set updates cache and backend", "BytesShelf.__setitem__ no longer updates both cache and backend")
     di = sh.methods.get("__delitem__")
-    dsrc = unparse(di.node)
-    r5.require("del self.dict[key]" in dsrc and "del self.cache[key]" in dsrc, di, "delete removes from cache and backend", "BytesShelf.__delitem__ no longer removes the key from both cache and backend")
+    dk = di.params[1]
+    okd = False
+    for ps in summarize(di):
+        dels = [e[1] for e in ps.events if e[0] == "del"]
+        pops = [e[1] for e in ps.events if e[0] == "call" and e[1][0] == "call" and e[1][1] in (("fn", "self.cache.pop"), ("fn", "self.dict.pop"))]
+        b = ("sub", "self.dict", ("var", dk)) in dels or any(c[1] == ("fn", "self.dict.pop") and c[2][:1] == (("var", dk),) for c in pops)
+        c_ = ("sub", "self.cache", ("var", dk)) in dels or any(c[1] == ("fn", "self.cache.pop") and c[2][:1] == (("var", dk),) for c in pops)
+        if ps.exc is None:
+            okd = b and c_
+            if not okd:
+                break
+    r5.require(okd, di, "delete removes from cache and backend", "BytesShelf.__delitem__ no longer removes the key from both cache and backend")
     sy2 = sh.methods.get("sync")
-    ysrc = unparse(sy2.node)
-    ok = "self.writeback = False" in ysrc and "for (key, entry) in self.cache.items()" in ysrc.replace("for key, entry in", "for (key, entry) in") and "self[key] = entry" in ysrc and \
-        "self.writeback = True" in ysrc and "self.cache = {}" in ysrc and ysrc.index("self.writeback = False") < ysrc.index("self[key] = entry") < ysrc.index("self.writeback = True") < ysrc.index("self.cache = {}")
-    r5.require(ok, sy2, "sync flushes the cache with write-back disabled, then clears it", "BytesShelf.sync no longer flushes the cache with write-back disabled and clears it afterwards")
+    okf = False
+    for ps in summarize(sy2, unroll=1):
+        if ps.exc is not None:
+            continue
+        seq = []
+        for e in ps.events:
+            if e[0] == "store" and e[1] == "self.writeback":
+                seq.append("wb=%s" % (e[2][1] if e[2][0] == "const" else "?"))
+            elif e[0] == "store" and isinstance(e[1], tuple) and e[1][1] == "self" and e[1][2][0] == "proj" and e[2][0] == "proj" and e[1][2][1] == e[2][1] and \
+                    e[1][2][1] == ("elem", ("call", ("fn", "self.cache.items"), (), ())):
+                seq.append("flush")
+            elif e[0] == "store" and e[1] == "self.cache" and e[2] in (("dict", ()), ("call", ("fn", "dict"), (), ())):
+                seq.append("clear")
+            elif e[0] == "call" and e[1][0] == "call" and e[1][1] == ("fn", "self.cache.clear"):
+                seq.append("clear")
+        if "flush" in seq:
+            okf = seq.index("wb=False") < seq.index("flush") if "wb=False" in seq else False
+            okf = okf and "wb=True" in seq and seq.index("flush") < seq.index("wb=True") and "clear" in seq and seq.index("flush") < seq.index("clear")
+            if not okf:
+                break
+    r5.require(okf, sy2, "sync flushes the cache with write-back disabled, then clears it", "BytesShelf.sync no longer flushes the cache with write-back disabled and clears it afterwards")
     gi = sh.methods.get("__getitem__")
-    gsrc = unparse(gi.node)
-    r5.require("value = self.cache[key]" in gsrc and "except KeyError" in gsrc and "BytesIO(self.dict[key])" in gsrc, gi, "get prefers the cache, falls back to the backend", "BytesShelf.__getitem__ no longer reads cache first, backend second")
+    gk = ("var", gi.params[1])
+    rets = [ps.ret for ps in summarize(gi, follow_exc=True) if ps.exc is None and ps.ret is not None]
+    from_cache = any(rt == ("sub", ("attr", ("var", "self"), "cache"), gk) for rt in rets)
+    from_back = any(S.mentions(rt, "self") and _has(rt, ("sub", ("attr", ("var", "self"), "dict"), gk)) for rt in rets)
+    r5.require(from_cache and from_back, gi, "get prefers the cache, falls back to the backend", "BytesShelf.__getitem__ no longer reads cache first, backend second")
     ge = sh.methods.get("get")
-    r5.require("if key in self.dict" in unparse(ge.node) and "return self[key]" in unparse(ge.node), ge, "get tests membership on the backend", "BytesShelf.get no longer tests membership on the backend")
+    okg = True
+    seen = set()
+    for ps in summarize(ge):
+        if ps.exc is not None:
+            continue
+        inb = [t for (k, t) in ps.facts if k[0] == "in" and k[1] == entry(ge.params[1]) and k[2] == "self.dict"]
+        if not inb:
+            okg = False
+        elif inb[0]:
+            seen.add(True)
+            okg = okg and ps.ret == ("sub", ("var", "self"), ("var", ge.params[1]))
+        else:
+            seen.add(False)
+            okg = okg and ps.ret == ("var", ge.params[2])
+    r5.require(okg and seen == {True, False}, ge, "get tests membership on the backend", "BytesShelf.get no longer tests membership on the backend")
     for nm in ("__iter__", "__len__", "__contains__"):
         f = sh.methods.get(nm)
-        r5.require(f is not None and "self.dict" in unparse(f.node), f or si, "%s reads the backend" % nm, "BytesShelf.%s no longer reads the backend" % nm)
+        r5.require(f is not None and any(isinstance(x, ast.Attribute) and unparse(x) == "self.dict" for x in ast.walk(f.node)), f or si, "%s reads the backend" % nm, "BytesShelf.%s no longer reads the backend" % nm)
     # a shelf-level clear / pop shortcut must keep cache and backend together
     for nm in ("clear", "pop", "popitem", "update", "setdefault"):
         f = sh.methods.get(nm)
         if f is not None:
-            s = unparse(f.node)
-            r5.require("self.cache" in s and "self.dict" in s, f, "shelf %s touches cache and backend" % nm,
+            attrs = {unparse(x) for x in ast.walk(f.node) if isinstance(x, ast.Attribute)}
+            r5.require("self.cache" in attrs and "self.dict" in attrs, f, "shelf %s touches cache and backend" % nm,
                        "BytesShelf.%s is overridden but does not treat cache and backend together: stale cache entries survive and are written back at sync" % nm)
     cs = sh.methods.get("close")
-    csrc = unparse(cs.node)
-    r5.require("self.sync()" in csrc and "self.dict = _ClosedDict()" in csrc, cs, "shelf close syncs and installs its marker", "BytesShelf.close no longer syncs / installs the closed marker")
+    scfg = cfg_of(cs.node)
+    smarks = {n.id for n in scfg.nodes if n.kind == "stmt" and isinstance(n.stmt, ast.Assign) and any(unparse(t) == "self.dict" for t in n.stmt.targets) and (
+        (isinstance(n.stmt.value, ast.Call) and dotted(n.stmt.value.func) == "_ClosedDict") or (isinstance(n.stmt.value, ast.Constant) and n.stmt.value.value is None))}
+    synced = any(any(e[0] == "call" and e[1][0] == "call" and e[1][1] == ("fn", "self.sync") for e in ps.events) for ps in summarize(cs))
+    already = lambda n: False  # noqa: E731
+    # the only way out without the marker is the early return for an already released shelf (self.dict is None)
+    Fc = facts_of(cs)
+    unmarked_ok = True
+    for (a_, _lab) in scfg.pred[scfg.exit]:
+        if a_ in smarks:
+            continue
+        if a_ == scfg.entry or scfg.can_reach(scfg.entry, a_, avoid=smarks):
+            alts = Fc.alts(a_) or []
+            if not alts or not all(any(k[0] == "is" and "None" in k[1:] and "self.dict" in k[1:] and t for (k, t) in alt) for alt in alts):
+                unmarked_ok = False
+    r5.require(synced and bool(smarks) and unmarked_ok, cs, "shelf close syncs and installs its marker", "BytesShelf.close no longer syncs / installs the closed marker")
     return rules
+
+
+def _has(t, sub):
+    if t == sub:
+        return True
+    return isinstance(t, tuple) and any(_has(x, sub) for x in t if isinstance(x, tuple))
 
 
 def _fresh_copy(v, src_param):
